@@ -52,10 +52,10 @@ CHECKS['C05'] = dict(
     note='Bounded depth; ids drawn from an order-complete lattice (the code only compares words).')
 CHECKS['C06'] = dict(
     category='model_checking', design_ref='DESIGN.md §3 C06',
-    technique='explicit-state BFS over request batches on the real doModify of 2 sessions with held / dead / invalid operations and primary hand-over; per-stream result accounting',
+    technique='explicit-state BFS over request batches on the real doModify of 2 sessions with held / dead / invalid operations and primary hand-over, per-stream result accounting; stateless schedule DFS (deviation bound 2, thorough 4, happens-before state cache) of two or three sessions\' programs as threads with the set of outcomes of all step-wise sequential interleavings on the real server as the oracle',
     text=('Every history to the depth bound of single operations and 2-3 operation batches (held entries, releasing entries, REPLACE that goes dead, DELETEs, empty and unknown network instance) sent by two sessions '
           'that take the primary role from each other, in RIB-ack and FIB-ack mode, on the real doModify: per (stream, id) the results must be exactly {FAILED} or {RIB} or {RIB then FIB}; no id that the stream did not send; '
-          'every operation of the live primary is answered unless it is still held; the RIB equals the fold of RIB_PROGRAMMED results.'),
+          'every operation of the live primary is answered unless it is still held; the RIB equals the fold of RIB_PROGRAMMED results. Concurrent tier: 50 combinations of small session programs (announce, batches with forward references, DELETE / REPLACE of the other session\'s key, re-announce, leave; RIB and FIB acknowledgements; an optional third session that only announces) run as threads on the real handlers; each execution\'s outcome (every session\'s answers in order, installed entries, held operations, election state) must be an outcome of some step-wise interleaving of the same programs on a fresh sequential server.'),
     note='Handler tier (results collected from the channels doModify writes to); the goroutine plumbing of Modify is covered by the schedule tier when present. Bounded depth 5/6.')
 CHECKS['C07'] = dict(
     category='model_checking', engine='input-enumeration', design_ref='DESIGN.md §3 C07',
